@@ -100,8 +100,48 @@ def cases(rng, tier):
             WRONG = ["s", 7, True, ["a", "b"], {"a": 1}, None, "12", [1], [], ["a", 1], [1, "a"], ["a", {"x": 1}], ["a", None], ["a", ["b"]]]
             for wrong in (WRONG if tier != "quick" else rng.sample(WRONG, 4)):
                 out.append({"t": "slot", "cls": qn, "param": pn, "kind": k, "v": wrong})
-    out += rule_cases() + bcl_cases()
+    out += rule_cases() + bcl_cases() + dpop_hdr_cases()
     return out
+
+
+# ---- typed slots filled from a SIGNED HEADER (the DPoP proof classes read their claims with verify_header, not through the constructor)
+DPOP_CLS = ["idpyoidc.client.oauth2.add_on.dpop.DPoPProof", "idpyoidc.server.oauth2.add_on.dpop.DPoPProof"]
+DPOP_WRONG = {"iat": ["1700000000", "yesterday", [1700000000], {"t": 1}, 17.5], "jti": [7, ["j"], {"a": 1}], "htm": [5, ["POST"]], "htu": [9, {"u": 1}], "ath": [3, ["x"]]}
+_dk = None
+
+
+def dpop_hdr_cases():
+    return [{"t": "dpophdr", "cls": q, "param": pn, "v": v} for q in DPOP_CLS for pn, vs in DPOP_WRONG.items() for v in vs] + \
+           [{"t": "dpophdr", "cls": q, "param": None, "v": None} for q in DPOP_CLS]
+
+
+def _dpophdr_impl(c):
+    global _dk
+    import importlib
+    from cryptojwt.jwk.ec import new_ec_key
+    from cryptojwt.jws.jws import JWS
+    if _dk is None:
+        _dk = new_ec_key("P-256")
+    mod, name = c["cls"].rsplit(".", 1)
+    cls = getattr(importlib.import_module(mod), name)
+    claims = {"jti": "j-1", "htm": "POST", "htu": "https://example.com/token", "iat": 1700000000}
+    if c["param"]:
+        claims[c["param"]] = c["v"]
+    hdr = JWS(json.dumps(claims), alg="ES256").sign_compact([_dk], protected={"typ": "dpop+jwt", "jwk": _dk.serialize(private=False)})
+    try:
+        m = cls().verify_header(hdr)
+    except Exception as e:
+        return {"r": "exc", "e": type(e).__name__}
+    if m is None:
+        return {"r": "exc", "e": "None"}
+    try:
+        m.verify()
+        ver = "ok"
+    except Exception as e:
+        ver = "raise"
+    want = {"iat": int, "jti": str, "htm": str, "htu": str, "ath": str}
+    bad = [k for k, t in want.items() if k in m and (not isinstance(m[k], t) or isinstance(m[k], bool))]
+    return {"r": "stored", "verify": ver, "bad": bad, "val": {k: repr(m[k])[:30] for k in bad}}
 
 
 # ---------------------------------------------------------------------------------------------------------------- cross-parameter rules
@@ -315,6 +355,8 @@ def _run_rule(c):
 
 
 def impl(c):
+    if c["t"] == "dpophdr":
+        return _dpophdr_impl(c)
     if c["t"] == "bcl":
         return _bcl_impl(c)
     if c["t"] == "rule":
@@ -377,7 +419,7 @@ def _enc_allowed(al):
 
 
 def model_lines(c, obs):
-    if c["t"] == "bcl":
+    if c["t"] in ("bcl", "dpophdr"):
         return []          # the embedded object's signature policy is C08's / C16's model; here the oracle states the rule
     if c["t"] == "rule":
         return [c["line"]]
@@ -407,7 +449,7 @@ def model_lines(c, obs):
 
 
 def compare(c, obs, outs):
-    if c["t"] == "bcl":
+    if c["t"] in ("bcl", "dpophdr"):
         return []
     if c["t"] == "rule":
         return [] if outs[0] == obs["r"] else [f"rule {c['rule']} on {c['args']} verify({c['kw']}): model={outs[0]} impl={obs}"]
@@ -443,6 +485,12 @@ RULE_ORACLE = {
 
 def oracle(c, obs):
     v = []
+    if c["t"] == "dpophdr":
+        if obs["r"] == "stored" and obs["bad"]:
+            v.append({"cls": "wrong-type-stored", "via": "signed header", "class": c["cls"].split(".")[1] + ".DPoPProof", "params": obs["bad"], "verify": obs["verify"]})
+        if obs["r"] != "stored" and c["param"] is None:
+            v.append({"cls": "genuine-proof-refused", "class": c["cls"].split(".")[1] + ".DPoPProof", "how": obs.get("e")})
+        return v
     if c["t"] == "bcl":
         if obs["r"] == "ok" and c["tok"] != "genuine":
             v.append({"cls": "invalid-logout-token-accepted", "token": c["tok"], "registration": c["reg"]})
@@ -470,6 +518,8 @@ def known_key(c, v, known):
 
 
 def classify(c, obs):
+    if c["t"] == "dpophdr":
+        return "dpophdr:" + obs["r"]
     if c["t"] == "bcl":
         return "bcl:" + obs["r"]
     if c["t"] == "rule":
@@ -478,7 +528,7 @@ def classify(c, obs):
 
 
 def nontrivial(c, obs):
-    if c["t"] in ("rule", "bcl"):
+    if c["t"] in ("rule", "bcl", "dpophdr"):
         return True
     return c["t"] != "req" or c.get("drop") is not None or c.get("outside") is not None
 
